@@ -213,19 +213,25 @@ Definition handler (auth_save_guarded : bool) (s : state) (h : hkind) (u : ukey)
                  else if writable s then (save s u (if from_cache then cur else b), OServed) else (s, OServed)
   end.
 
-Definition step_gen (guarded : bool) (syncf : db -> Z -> option nat -> db -> db * bool)
+Definition signed_both (write_through : bool) (s : state) (f : list (skey * srow) -> list (skey * srow)) : state :=
+  mk_state (set_signed (primary s) (f (signed (primary s))))
+           (if write_through then set_signed (cache s) (f (signed (cache s))) else cache s)
+           (now s) (pmode s).
+
+Definition step_gen (guarded write_through : bool) (syncf : db -> Z -> option nat -> db -> db * bool)
            (cleanupf : Z -> db -> db) (s : state) (o : op) : state * out :=
   match o with
   | Save u b => if writable s then (save s u b, OOk) else (s, OErr)
   | DelUser u => if writable s
                  then (with_primary s (set_profiles (primary s) (adel ukey_eqb u (profiles (primary s)))), OOk)
                  else (s, OErr)
+  (* UpsertSigned / DeleteSigned: committed in the primary, then repeated on the local cache
+     (write_through; before that repair the cache only followed at the next copy) *)
   | Upsert u t d e => if writable s
-                      then (with_primary s (set_signed (primary s)
-                              (aset skey_eqb (u, t) (mk_srow d e (now s)) (signed (primary s)))), OOk)
+                      then (signed_both write_through s (aset skey_eqb (u, t) (mk_srow d e (now s))), OOk)
                       else (s, OErr)
   | DelSigned u t => if writable s
-                     then (with_primary s (set_signed (primary s) (adel skey_eqb (u, t) (signed (primary s)))), OOk)
+                     then (signed_both write_through s (adel skey_eqb (u, t)), OOk)
                      else (s, OErr)
   | Tick dt => (mk_state (primary s) (cache s) (now s + dt) (pmode s), OOk)
   | Sync f => if writable s
@@ -243,10 +249,10 @@ Definition step_gen (guarded : bool) (syncf : db -> Z -> option nat -> db -> db 
   end.
 
 (* the repaired code *)
-Definition step : state -> op -> state * out := step_gen true sync cleanup.
+Definition step : state -> op -> state * out := step_gen true true sync cleanup.
 (* the code before the repairs, on SQLite (qde = false) or an eagerly executing driver *)
 Definition step_old (qde : bool) : state -> op -> state * out :=
-  step_gen false (old_sync qde) (fun n d => if qde then cleanup n d else d).
+  step_gen false false (old_sync qde) (fun n d => if qde then cleanup n d else d).
 
 Fixpoint run_gen (st : state -> op -> state * out) (s : state) (ops : list op) : state * list out :=
   match ops with
